@@ -26,7 +26,7 @@ The library is supposed to satisfy this semantic property:
 YOUR TASK: write ONE realistic change to the library sources (under {wt}/include, or {wt}/examples if the
 property is about the examples) that BREAKS this property while
   (a) the library and its existing test suite still compile,
-  (b) the existing test suite still passes (build: cmake -S {wt} -B {wt}/_b -G Ninja >/dev/null && cmake --build {wt}/_b >/dev/null && ctest --test-dir {wt}/_b -j8),
+  (b) the existing test suite still passes (build: cmake -S {wt} -B {wt}/_b -G Ninja >/dev/null && cmake --build {wt}/_b >/dev/null && ctest --test-dir {wt}/_b/tests -j8),
   (c) the change looks like something a maintainer could plausibly write (an optimisation, a refactoring,
       a "simplification", a fast path, a cache, a changed comparison or index computation) - not sabotage,
   (d) it needs something SPECIFIC to manifest - a particular multi-step sequence of operations, an unusual
